@@ -56,6 +56,14 @@ add("C11", "model_checking", "E1+E2", "exhaustive hint table + exhaustive enumer
 add("C14", "model_checking", "E1+E3", "exhaustive enumeration of garbage insertions executed on the real parser (differential) + product-automaton disjointness of the captured recognisers", "Every assignment of 0..2 unparsable lines to every insertion point of each section for every garbage line; observation must equal the base parse and warnings must grow by exactly the number of lines.", TRUST, "DESIGN.md 4 C14")
 add("C15", "fault_enumeration", "E1", "exhaustive single-fault enumeration at every position, executed on the real parser, verdict predicted by the reference model", "Every single corruption of the sync data at every position on bases of 1..4 tempo events x event placements around every tempo tick x 8 event kinds; then every query tick.", TRUST, "DESIGN.md 4 C15")
 
+E3TECH = "explicit-state reachability over the product automaton of the recognisers captured from the running parser and specification automata (strings of any length), every verdict replayed on the real line parsers / Chart.from_file; plus bounded-exhaustive token enumeration"
+add("C07", "model_checking", "E3+E1", E3TECH, "Joint product of the captured N/S/E recognisers (captured trial order, first-match) with L_must/L_may automata decides L_must(K) <= claimed-as-K <= L_may(K) for all strings over a 99-character alphabet; translator validated against the compiled pattern objects on >3*10^5 strings; witnesses per product transition replayed on from_chart_line and end-to-end; token products and 2-3 line groups across tempo segments.", TRUST + " The automata are a model bound to the code by capture + string-by-string validation + replay.", "DESIGN.md 4 C07")
+add("C08", "model_checking", "E1+E3", "exhaustive enumeration of EVERY tempo value 1..10^7 (thorough 5*10^7) through the real parser + TS/A grids + product automata of the captured B/TS/A recognisers", "Every n in 1..10^7 is written into packed sync sections, parsed by Chart.from_file and compared with the correctly rounded n/1000; TS/A value grids and sequences across tempo segments; sandwich products for the captured B/TS/A recognisers with witness replay.", TRUST, "DESIGN.md 4 C08")
+add("C09", "model_checking", "E3+E1", E3TECH, "Product of the three captured [Events] recognisers with six specification automata: in every reachable configuration first-match(captured order) equals the specification class; witnesses replayed through a real [Events] section (value verbatim, exactly one list); all texts of length <= 4 (thorough 5) over a 6-character alphabet behind 6 prefixes; all orderings of <= 4 mixed lines.", TRUST, "DESIGN.md 4 C09")
+add("C10", "model_checking", "E3+E1", E3TECH, "All 276 pairwise products of the 24 captured field recognisers (empty intersection for strings of any length), 24 inclusion products L_must(F) <= L(F) with witness replay through a real [Song] section; all subsets of <= 2 optional fields and complements x line orders; all values of length <= 3 (thorough 4) over a 5-character alphabet for each of the 18 string fields; adversarial values.", TRUST, "DESIGN.md 4 C10")
+add("C19", "model_checking", "E2", "explicit-state exploration of read-only operation histories on live chart objects (all sequences to depth 2/3, un-merged), fingerprint + twin equality after every operation", "Every sequence of <= 2 (thorough 3) operations out of a 50-operation alphabet on 5 charts is executed on a fresh parse; after every operation the full public observation and equality with an untouched twin (both directions) must equal the initial state.", TRUST, "DESIGN.md 4 C19")
+add("C20", "model_checking", "E2", "explicit-state BFS over import histories, one fresh interpreter per transition, states merged by module-table fingerprint; merging validated by un-merged pairs/triples/permutations", "BFS to a fixed point over 'import M' for the 13 modules in fresh interpreters (25 states / 325 transitions on the repaired tree); every transition must succeed and all states that load every module must coincide; all 156 ordered pairs (thorough: 1716 triples + 24 full permutations) executed un-merged and compared with the merged graph.", "Trusted: CPython import system semantics captured by sys.modules + namespaces; fresh interpreter = /venv/bin/python -I.", "DESIGN.md 4 C20")
+
 PENDING = {}
 
 
